@@ -185,6 +185,16 @@ def r8a_diagnostic_codes(ctx):
                 r.ok(sample={"collector": res.split("::")[-1], "gate": gated[0]})
             else:
                 r.violate(key, "collector %s is not called under exactly one gate (%s)" % (res.split("::")[-1], gated))
+    # every publication has consulted every gate: a path that publishes without evaluating the gate of a code decides that
+    # code's presence by something else than (findings, configuration)
+    for bb, c in f.calls():
+        if (c.get("res") or "").endswith("::publish_diagnostics"):
+            missing = sorted(lit for lit, (gb, _nt) in gates.items() if gb not in dom.get(bb, set()))
+            if missing:
+                r.violate("R8a|publish-bypasses-gate|%s" % ",".join(missing),
+                          "publish_diagnostics at %s is reachable without evaluating the gate(s) of %s" % (crate.span_str(c["span"]), missing))
+            else:
+                r.ok(sample={"publish_at": crate.span_str(c["span"]), "gates_dominating": sorted(gates)})
     # quick-fix handler literal
     for g in crate.real_fns():
         if "handle_code_action" in g.id:
@@ -225,6 +235,13 @@ def r11a_analyze_then_publish(ctx):
             r.violate(key + "|no-analysis", "%s does not analyse the document" % h.id)
             continue
         pdom = h.postdominators()
+        dom = h.dominators()
+        # no publishing without analysing first: every path to a publisher passes an analysis call (a handler that skips
+        # the analysis for some contents -- "text unchanged" -- republishes what an older state of the workspace produced)
+        if pub and not all(any(a in dom.get(p, set()) for a in ana) for p in pub):
+            r.violate(key + "|analysis-skipped", "%s: a path reaches publish_diagnostics_for_file without passing the analysis "
+                                                 "of the notified content" % h.id)
+            continue
         # the publisher is awaited: the call creating the future must post-dominate the analysis call
         if pub and all(any(p in pdom.get(a, set()) for p in pub) for a in ana):
             # same path operand
@@ -709,4 +726,94 @@ def r8c_text_fallback(ctx):
             else:
                 r.violate(key, "`%s` is recognised by the AST path but none of the textual tests %s in %s matches it" % (line, ts, fid))
     r.floor("decorator modules recognised by the AST path", len(mods), 2)
+    return r
+
+
+def r11e_report_root_is_scan_root(ctx):
+    r = Result("R11e", "in every function that scans a workspace and then asks the database for a report rooted at a path, the report "
+                       "is given the very path that was scanned (same local through references and copies): the stored paths are "
+                       "canonical, a report rooted at another spelling of the directory (symlink, `..`) matches nothing")
+    crate = ctx.bin
+    n = 0
+    for f in crate.real_fns():
+        scans = [(bb, c) for bb, c in f.calls() if re.search(r"::scan_workspace(_with_excludes)?$", c.get("res") or "") and c.get("res_local")]
+        if not scans:
+            continue
+        for bb, c in f.calls():
+            res = c.get("res") or ""
+            if not c.get("res_local") or (bb, c) in scans or "FixtureDatabase" not in res or len(c["args"]) < 2:
+                continue
+            g = crate.fns.get(res)
+            if g is None:
+                continue
+            pidx = [i for i in range(2, g.argc + 1) if g.local_ty(i).lstrip("&") in ("std::path::Path", "std::path::PathBuf")]
+            for i in pidx:
+                if i - 1 >= len(c["args"]):
+                    continue
+                n += 1
+                key = "R11e|%s|%s" % (f.id, res.split("::")[-1])
+                roots = {_root(f, sc["args"][1]) for _b, sc in scans if len(sc["args"]) > 1}
+                if _root(f, c["args"][i - 1]) in roots:
+                    r.ok(sample={"report": res.split("::")[-1], "rooted_at": "the scanned path"})
+                else:
+                    r.violate(key, "%s passes %s a path that is not the one handed to scan_workspace" % (f.id, res.split("::")[-1]))
+    r.floor("reports rooted at the scanned path", n, 1)
+    return r
+
+
+PYTEST_DECORATOR_KEYWORDS = {"scope", "autouse", "name", "params", "ids", "indirect", "argnames", "argvalues"}
+
+
+def r8d_decorator_keywords(ctx):
+    r = Result("R8d", "each extractor of a decorator keyword (a function whose closures read `Keyword.arg` of the Python AST and compare "
+                      "it with a string literal, its own or one handed in by the calling extractor) compares with literals that "
+                      "are keywords of pytest's own fixture / parametrize API, and the extractor that feeds FixtureScope::parse "
+                      "compares with \"scope\" alone (pytest-asyncio's loop_scope selects an event loop, it is not the fixture's "
+                      "scope)")
+    crate = ctx.bin
+    from ..sel import elem_fields_in
+    from .r3d import _closures_in, _local_in_root
+    from ..facts import DbInfo
+    db = ctx.memo("dbinfo", lambda: DbInfo(ctx))
+    KW = "rustpython_parser::rustpython_ast::Keyword"
+    roots = defaultdict(list)
+    for f in crate.real_fns():
+        roots[f.root].append(f)
+    lits_by_root = defaultdict(set)
+    for root, fam in sorted(roots.items()):
+        if not any("arg" in elem_fields_in(g, KW) for g in fam):
+            continue
+        H = crate.fns.get(root)
+        closures = _closures_in(crate, H) if H is not None else {}
+        for g in fam:
+            for bb, c in g.calls():
+                if not ("PartialEq" in (c.get("fn") or "") or (c.get("res") or "").endswith("str>::eq")):
+                    continue
+                for a in c["args"]:
+                    direct = {x for x in literals_reaching(g, a) if x and re.fullmatch(r"[a-z_]+", x)}
+                    lits_by_root[root] |= direct
+                    if direct or H is None or op_local(a) is None:
+                        continue
+                    # the literal is a parameter of the extractor helper: take it from every call of the helper
+                    pl = _local_in_root(closures, H, g, op_local(a)) if (g is H or g.id in closures) else None
+                    if pl is not None and 1 <= pl <= H.argc:
+                        for cf, cbb, cc in db.origins.callers.get(H.id, []):
+                            if pl - 1 < len(cc["args"]):
+                                lits_by_root[cf.root] |= {x for x in literals_reaching(cf, cc["args"][pl - 1]) if x and re.fullmatch(r"[a-z_]+", x)}
+    n = 0
+    for root, lits in sorted(lits_by_root.items()):
+        if not lits:
+            continue
+        fam = roots[root]
+        n += 1
+        key = "R8d|%s" % root
+        parses_scope = any((c.get("res") or "").endswith("FixtureScope::parse") for g in fam for _b, c in g.calls())
+        foreign = sorted(lits - PYTEST_DECORATOR_KEYWORDS)
+        if foreign:
+            r.violate(key + "|foreign-keyword", "%s reads decorator keyword(s) %s, which pytest's fixture / parametrize API does not have" % (root, foreign))
+        elif parses_scope and lits != {"scope"}:
+            r.violate(key + "|scope-keyword", "%s derives the fixture scope from keyword(s) %s" % (root, sorted(lits)))
+        else:
+            r.ok(sample={"extractor": root.split("::")[-1], "keyword": sorted(lits)})
+    r.floor("decorator keyword extractors", n, 3)
     return r
